@@ -280,6 +280,8 @@ class C13(Prop):
         for i, c in enumerate(chunks):
             if single_at is not None and i == single_at:
                 lines.append("iflag single")
+            if single_at is not None and rng is not None and i > single_at and rng.chance(1, 3):
+                lines.append(rng.choice(["iflag line", "iflag single"]))
             lines.append(("line " if console else "chunk ") + hx(c))
             if rng is not None and not console and rng.chance(1, 12):
                 lines.append("read")          # a read event with (probably) nothing in the socket
@@ -368,6 +370,9 @@ class C13(Prop):
         add("binary-verbatim", "binary", [bytes(range(256)), b"\xff\xfa\x18\xff\xf0\r\n\0", b"z" * 3000])
         # single character mode (memory safety only)
         add("single-char", "telnet", [b"a", b"b\r", b"\ncd\r\n", b"\r\r\r" + bytes([IAC, WILL, LM])], single_at=0, inter="each")
+        B.append(E.Case("b-single-then-line-partial-move", ["port telnet", "iflag single", "chunk " + hx(b"ab"), "iflag line", "extract",
+                        "chunk " + hx(b"c\r\n"), "drain", "iflag single", "chunk " + hx(b"\0\0xy"), "iflag line", "extract", "extract",
+                        "chunk " + hx(b"z\r\n"), "drain"], {"origin": "boundary"}))
         add("single-char-full", "telnet", [b"s" * 682, b"s" * 682, b"s" * 682, b"s" * 682], single_at=0, inter="end")
         return B
 
